@@ -411,3 +411,51 @@ def coq_eval_term(wd, tag, header, term):
     if rc != 0:
         return None, err
     return out, ""
+
+
+IMPL_RUN = os.path.join(VERIF, "tools/harness/impl_run.py")
+
+
+def run_impl_op(op, cases, modules=(), host=HOST_DEFAULT, timeout=1800, shards=1):
+    """Run an implementation-side op over cases (optionally sharded over processes)."""
+    if shards <= 1 or len(cases) < 200:
+        return run_json(IMPL_RUN, {"op": op, "cases": cases, "modules": list(modules)}, host=host, timeout=timeout)["results"]
+    from concurrent.futures import ThreadPoolExecutor
+    n = len(cases)
+    step = (n + shards - 1) // shards
+    parts = [cases[i:i + step] for i in range(0, n, step)]
+    with ThreadPoolExecutor(max_workers=shards) as ex:
+        outs = list(ex.map(lambda p: run_json(IMPL_RUN, {"op": op, "cases": p, "modules": list(modules)}, host=host, timeout=timeout)["results"], parts))
+    res = []
+    for o in outs:
+        res += o
+    return res
+
+
+def correspond(r, tag, header, op, cases, term_fn, modules=(), host=HOST_DEFAULT, chunk=400, max_report=3,
+               describe=None, nontrivial=None, shards=1):
+    """Model-vs-implementation correspondence, evaluated inside Coq.
+    term_fn(case) -> Coq term (type list Z) computing the model's observation for that case.
+    Returns the list of (case, impl_obs, model_obs_text) disagreements (also recorded as violations
+    unless the caller passes describe=None and handles them)."""
+    res = run_impl_op(op, cases, modules=modules, host=host, shards=shards)
+    lits = []
+    for c, o in zip(cases, res):
+        if isinstance(o, dict):
+            o = [1, 50]
+        lits.append(f"({term_fn(c)}, {zlist(o)})")
+        r.count(f"{tag}:" + ("ok" if o and o[0] == 0 else f"err{o[1] if len(o) > 1 else ''}"))
+        nt = nontrivial(c, o) if nontrivial else (bool(o) and o[0] == 0 and len(o) > 2)
+        r.case((tag, digest(c)), nontrivial=nt, sample={"op": op, "case": c, "impl_obs": o[:24]} if len(r.cov["samples"]) < 8 and nt and (len(r.cov["samples"]) == 0 or r.cov["samples"][-1].get("op") != op) else None)
+    bad, errs = coq_cases(r.wd, tag, header, "list Z * list Z", "fun c => zlist_eqb (fst c) (snd c)", lits, chunk=chunk)
+    if errs:
+        raise RuntimeError(f"coq case evaluation failed for {tag}: {errs[0]}")
+    out = []
+    for b in bad[:max_report]:
+        mout, _ = coq_eval_term(r.wd, f"{tag}_m{b}", header, term_fn(cases[b]))
+        mtxt = " ".join((mout or "").split())
+        out.append((cases[b], res[b], mtxt))
+        if describe is not None:
+            r.violation(describe(cases[b], res[b], mtxt))
+    r.cov.setdefault("correspondence", {})[tag] = {"cases": len(cases), "disagreements": len(bad)}
+    return out, bad, res
